@@ -94,3 +94,44 @@ func vC13Paths(lens [][]int) {
 	}
 	vCover("C13 paths scanned")
 }
+
+// H_C13_dir: one shared directory containing a sub-directory with a file and a sibling file whose
+// name starts with the sub-directory's name; alone or together with a second shared file.
+func H_C13_dir() {
+	sib := []string{"a.b", "a-b", "ab", "b", "a b"}[vChoice("sibling", 5)]
+	vTempFile("s/a/c", make([]byte, 3))
+	vTempFile("s/"+sib, make([]byte, 2))
+	dir := vTempDir() + "/s"
+	paths := []string{dir}
+	if vBool("secondPath") {
+		paths = append(paths, vTempFile("t/z", make([]byte, 1)))
+	}
+	m, err := manifest.ScanPaths(paths)
+	vAssert(err == nil, "scanning an existing directory succeeds")
+	files, folders := 0, 0
+	total := int64(0)
+	for i := range m.Items {
+		if m.Items[i].IsDir {
+			folders++
+		} else {
+			files++
+			total += m.Items[i].Size
+		}
+		for j := i + 1; j < len(m.Items); j++ {
+			vAssert(m.Items[i].RelPath != m.Items[j].RelPath, "relative paths in the manifest are pairwise distinct")
+			vAssert(m.Items[i].RelPath < m.Items[j].RelPath, "the manifest is sorted by relative path")
+		}
+	}
+	vAssert(files == len(paths)+1 && folders == 2, "every file and directory beneath the shared paths is listed once")
+	vAssert(m.FileCount == files && m.FolderCount == folders && m.TotalBytes == total, "counts and totals add up")
+	resolve, rerr := buildPathResolver(paths)
+	vAssert(rerr == nil, "the resolver can be built for the same paths")
+	for _, it := range m.Items {
+		if !it.IsDir {
+			p := resolve(it.RelPath)
+			st, serr := os.Stat(p)
+			vAssert(serr == nil && !st.IsDir() && st.Size() == it.Size, "every listed file resolves to a source file of the listed size")
+		}
+	}
+	vCover("C13 directory scanned")
+}
